@@ -160,7 +160,15 @@ func fa_pow_p58(fe *Element) {
 	VerifSetFv(fe, w)
 }
 
-//verif:ob prop=C04,C06,C10,C11 name=SqrtRatioI_decision_logic mode=int tags=purego,force32bit use=fa,fapow nouse=fa_SqrtRatioI,fa_InvSqrt split=zc:0..2
+// (the general case u, v != 0 needs two non-linear queries that took 20 s idle, 3 min under load and once did not finish
+// in 15 min: it runs in the THOROUGH tier only and is listed under C04 only, with a
+// generous cap, so that the checks it would otherwise be cross-listed under stay fast and a loaded machine does not
+// turn it into an inconclusive answer)
+//
+//verif:ob prop=C04 name=SqrtRatioI_decision_logic_general_case mode=int tags=purego,force32bit use=fa,fapow nouse=fa_SqrtRatioI,fa_InvSqrt tier=thorough timeout=900
+func vh_field_sqrt_ratio_general() { vh_field_sqrt_ratio() }
+
+//verif:ob prop=C04,C06,C10,C11 name=SqrtRatioI_decision_logic mode=int tags=purego,force32bit use=fa,fapow nouse=fa_SqrtRatioI,fa_InvSqrt split=zc:0..1
 func vh_field_sqrt_ratio() {
 	P := fP()
 	u, v := VerifAnyElement("u"), VerifAnyElement("v")
@@ -176,7 +184,10 @@ func vh_field_sqrt_ratio() {
 	VerifSetFv(&SQRT_M1, sqrtM1)
 	W := verif.UFInt("pow_p58", gu.Mul(gv).Mod(P))
 	zero := verif.IntK(0)
-	zc := verif.Case("zc")
+	zc := 2
+	if verif.HasCase("zc") {
+		zc = verif.Case("zc")
+	}
 	uz, vz := gu.Eq(zero), gv.Eq(zero)
 	switch zc {
 	case 0: // u = 0
